@@ -2,6 +2,7 @@ package system
 
 import (
 	"fmt"
+	"net"
 	"strings"
 	"sync"
 	"testing"
@@ -52,15 +53,17 @@ func takeAttempts(target string) []attempt {
 	return a
 }
 
+const c08BigBody = 300000
+
 type c08Sub struct {
 	Name    string
 	Weight  int
 	Members []string // backend names: "b<i>" live, "dead<j>" refused
 }
 
-func c08Conf(version string, ports []int, subs []c08Sub, retryMax, cross, level int) *sys.DataConf {
-	cl := sys.Cluster{Name: "c", RetryMax: retryMax, CrossRetry: cross, RetryLevel: level, TimeoutResponseHeaderMs: 250,
-		TimeoutConnSrvMs: 500, HashStrategy: 0, HashHeader: "X-Uid"}
+func c08Conf(version, cname string, ports []int, subs []c08Sub, retryMax, cross, level, idle int) *sys.DataConf {
+	cl := sys.Cluster{Name: cname, RetryMax: retryMax, CrossRetry: cross, RetryLevel: level, TimeoutResponseHeaderMs: 250,
+		TimeoutConnSrvMs: 500, HashStrategy: 0, HashHeader: "X-Uid", MaxIdleConnsPerHost: idle}
 	for _, s := range subs {
 		sc := sys.SubCluster{Name: s.Name, Weight: s.Weight}
 		for _, m := range s.Members {
@@ -86,7 +89,7 @@ func TestC08(t *testing.T) {
 		return srv.CallBacks.AddFilter(5 /*HandleForward*/, attemptLogger)
 	}}, func(p []int) *sys.DataConf {
 		ports = p
-		return c08Conf("v0", p, []c08Sub{{"s0", 100, []string{"b0"}}}, 0, 0, 0)
+		return c08Conf("v0", "c", p, []c08Sub{{"s0", 100, []string{"b0"}}}, 0, 0, 0, 0)
 	})
 	n := 0
 	rapid.Check(t, func(rt *rapid.T) {
@@ -125,7 +128,20 @@ func TestC08(t *testing.T) {
 		if blackhole {
 			subs = append(subs, c08Sub{Name: "GSLB_BLACKHOLE", Weight: rapid.SampledFrom([]int{0, 30}).Draw(rt, "bw")})
 		}
-		conf := c08Conf(fmt.Sprintf("v%d", n), ports, subs, retryMax, cross, level)
+		// the cluster is either the one the balancer already knows or one that this reload
+		// introduces (its balancer is created by the gslb reload and must get the configured
+		// retry limits, not built-in defaults)
+		cname := "c"
+		if rapid.IntRange(0, 2).Draw(rt, "new-cluster") == 0 {
+			cname = fmt.Sprintf("c%d", n)
+		}
+		// backend keep-alive: off, or BFE's default of 2 idle connections per backend
+		idle := rapid.SampledFrom([]int{0, 2}).Draw(rt, "max-idle-conns")
+		abortedUpload := rapid.IntRange(0, 5).Draw(rt, "upload-aborted-on-reused-conn") == 0
+		if abortedUpload {
+			idle = 2
+		}
+		conf := c08Conf(fmt.Sprintf("v%d", n), cname, ports, subs, retryMax, cross, level, idle)
 		if err := w.rig.Reload(conf); err != nil {
 			rec.Excluded("conf-rejected")
 			return
@@ -133,14 +149,23 @@ func TestC08(t *testing.T) {
 		method := rapid.SampledFrom([]string{"GET", "GET", "GET", "HEAD", "POST", "PUT", "DELETE"}).Draw(rt, "method")
 		bodyKind := "none"
 		if method == "POST" || method == "PUT" {
-			bodyKind = rapid.SampledFrom([]string{"cl", "chunked", "cl0"}).Draw(rt, "body")
+			bodyKind = rapid.SampledFrom([]string{"cl", "chunked", "cl0", "big"}).Draw(rt, "body")
 		} else if method == "GET" {
 			bodyKind = rapid.SampledFrom([]string{"none", "none", "none", "cl", "chunked", "cl0"}).Draw(rt, "body")
 		}
 		nfault := rapid.IntRange(0, 5).Draw(rt, "nfault")
 		var faults []string
 		for i := 0; i < nfault; i++ {
-			faults = append(faults, rapid.SampledFrom([]string{"close-before-response", "stall", "half-response", ""}).Draw(rt, "fault"))
+			faults = append(faults, rapid.SampledFrom([]string{"close-before-response", "stall", "half-response", "", "rst-on-header"}).Draw(rt, "fault"))
+		}
+		// warm-up requests leave idle keep-alive connections to the live backends in BFE's
+		// pool, so that the request under test may travel on a re-used connection
+		warm := rapid.SampledFrom([]int{0, 0, 4}).Draw(rt, "warmups")
+		if abortedUpload {
+			// a conjunction too rare to wait for: an upload on a re-used backend connection
+			// that the backend aborts while the body is still being streamed
+			method, bodyKind, warm = rapid.SampledFrom([]string{"POST", "PUT", "GET"}).Draw(rt, "m2"), "big", 4
+			faults = append([]string{"rst-on-header"}, faults...)
 		}
 		uid := rapid.StringMatching(`[a-z0-9]{1,6}`).Draw(rt, "uid")
 		// fault script: k-th arrival at any live backend gets faults[k]
@@ -155,14 +180,54 @@ func TestC08(t *testing.T) {
 			rq.WriteString("Content-Length: 0\r\n\r\n")
 		case "chunked":
 			rq.WriteString("Transfer-Encoding: chunked\r\n\r\n5\r\nhello\r\n0\r\n\r\n")
+		case "big":
+			fmt.Fprintf(&rq, "Content-Length: %d\r\n\r\n", c08BigBody)
 		default:
 			rq.WriteString("\r\n")
 		}
-		fpr := fmt.Sprintf("%v|rm%d cr%d lv%d|%s %s|%v|%s", subs, retryMax, cross, level, method, bodyKind, faults, uid)
+		fpr := fmt.Sprintf("%v|%v|rm%d cr%d lv%d idle%d|%s %s|%v|%s|w%d", subs, cname != "c", retryMax, cross, level, idle, method, bodyKind, faults, uid, warm)
 		wit := map[string]any{"subclusters": fmt.Sprintf("%+v", subs), "RetryMax": retryMax, "CrossRetry": cross, "RetryLevel": level,
-			"request": rq.String(), "faults": faults}
+			"request": rq.String(), "faults": faults, "cluster_new_in_this_reload": cname != "c", "warmup_requests": warm, "MaxIdleConnsPerHost": idle}
 
-		resp, _, err := w.exchange([]byte(rq.String()), 10*time.Second)
+		for i := 0; i < warm; i++ {
+			wt := fmt.Sprintf("%s/w%d", target, i)
+			w.exchange([]byte(fmt.Sprintf("GET %s HTTP/1.1\r\nHost: example.org\r\nX-Uid: %s\r\nConnection: close\r\n\r\n", wt, uid)), 5*time.Second)
+			takeAttempts(wt)
+			w.forget(wt)
+		}
+		var resp []byte
+		var err error
+		if bodyKind == "big" {
+			// the body is streamed in two parts: the second part is sent once a backend has the
+			// header section (or shortly after), so a backend-side abort hits BFE mid-body
+			var c net.Conn
+			c, err = w.rig.Dial()
+			if err == nil {
+				body := strings.Repeat("x", c08BigBody)
+				// the first part exceeds BFE's request write buffer, so the header section
+				// reaches the backend before the rest of the body exists
+				const first = 64 << 10
+				c.Write([]byte(rq.String() + body[:first]))
+				for i := 0; i < 300 && len(w.seenFor(target)) == 0; i++ {
+					time.Sleep(time.Millisecond)
+				}
+				c.SetWriteDeadline(time.Now().Add(10 * time.Second))
+				for off := first; off < len(body); off += 32 << 10 {
+					end := off + 32<<10
+					if end > len(body) {
+						end = len(body)
+					}
+					if _, werr := c.Write([]byte(body[off:end])); werr != nil {
+						break
+					}
+					time.Sleep(200 * time.Microsecond)
+				}
+				resp, _ = sys.ReadAllTimeout(c, 10*time.Second)
+				c.Close()
+			}
+		} else {
+			resp, _, err = w.exchange([]byte(rq.String()), 10*time.Second)
+		}
 		if err != nil {
 			rt.Fatalf("rig: %v", err)
 		}
@@ -195,6 +260,13 @@ func TestC08(t *testing.T) {
 		}
 		wit["attempt_outcomes"] = kinds
 		cls := []string{"method:" + method, "body:" + bodyKind, fmt.Sprintf("attempts:%d", len(atts))}
+		if cname != "c" {
+			cls = append(cls, "cluster-new-in-reload")
+		}
+		if warm > 0 && idle > 0 {
+			cls = append(cls, "warmed-idle-pool")
+		}
+		cls = append(cls, fmt.Sprintf("backend-keepalive:%v", idle > 0))
 		for _, k := range kinds {
 			cls = append(cls, "outcome:"+k)
 		}
